@@ -117,32 +117,52 @@ class Ranker:
         raise ValueError(self.plugin)
 
 
+def _cmp_scalar(a, b, eps):
+    d = abs(a - b)
+    if d <= eps * max(abs(a), abs(b)) + F(1, 1000):
+        return 0
+    return 1 if a > b else -1
+
+
+def cmp_keys(a, b, eps=1e-6):
+    """lexicographic comparison with a relative tie band per component (the implementation keeps some
+    components in float32)"""
+    if not isinstance(a, tuple):
+        a, b = (a,), (b,)
+    for x, y in zip(a, b):
+        if x == y:
+            continue
+        # close but not identical: the implementation may or may not see a difference at its
+        # float precision, so either order is acceptable -> report a tie for the whole key
+        return _cmp_scalar(x, y, eps)
+    return 0
+
+
 def tie_groups(keys, prefs, eps=1e-6):
-    """-> list of groups (lists of rel), best first; members of a group are mutually tied within eps"""
-    items = sorted(keys.items(), key=lambda kv: (prefs[kv[0]], kv[1]), reverse=True)
+    """-> list of groups (lists of rel), best first; members of a group are tied within eps"""
+    import functools
+
+    def cmp(i, j):
+        if prefs[i] != prefs[j]:
+            return 1 if prefs[i] > prefs[j] else -1
+        return cmp_keys(keys[i], keys[j], eps)
+
+    items = sorted(keys, key=functools.cmp_to_key(cmp), reverse=True)
     groups = []
-    for rel, k in items:
-        if groups:
-            last = groups[-1][-1]
-            if prefs[last] == prefs[rel] and _tied(keys[last], k, eps):
-                groups[-1].append(rel)
-                continue
-        groups.append([rel])
+    for rel in items:
+        if groups and cmp(groups[-1][-1], rel) == 0:
+            groups[-1].append(rel)
+        else:
+            groups.append([rel])
     return groups
 
 
-def _tied(a, b, eps):
-    if isinstance(a, tuple):
-        # lexicographic tuple: tied only if every component is tied
-        return all(_tied(x, y, eps) for x, y in zip(a, b))
-    d = abs(a - b)
-    return d <= eps * max(abs(a), abs(b)) + F(1, 1000)
-
-
 class Walk:
-    """enumerates every attempt sequence the documented walk allows (ties => alternatives)"""
+    """enumerates every attempt sequence the documented walk allows.  Candidates are ordered by the strict
+    partial order "higher preference, or same preference and a key that is greater beyond the tie band";
+    any linear extension of it is acceptable (ties => alternatives)."""
 
-    def __init__(self, view, temporal, plugin, args, outcome, cap=4000):
+    def __init__(self, view, temporal, plugin, args, outcome, cap=3000):
         self.v = view
         self.t = temporal
         self.plugin = plugin
@@ -152,66 +172,75 @@ class Walk:
         self.cap = cap
         self.overflow = False
         self.ambiguous = False
+        self._memo = {}
 
-    def ranked_groups(self, sibs):
+    def keys_prefs(self, sibs):
         rk = Ranker(self.plugin, self.args, self.v)
         keys = rk.keys(self.v, self.t, sibs)
-        if getattr(rk, "amb", None):
-            if any(s in rk.amb for s in sibs):
-                self.ambiguous = True
+        if getattr(rk, "amb", None) and any(s in rk.amb for s in sibs):
+            self.ambiguous = True
         prefs = {s: self.v.pref(s) for s in keys}
-        return tie_groups(keys, prefs)
+        return keys, prefs
+
+    @staticmethod
+    def gt(keys, prefs, i, j):
+        if prefs[i] != prefs[j]:
+            return prefs[i] > prefs[j]
+        return cmp_keys(keys[i], keys[j]) > 0
+
+    def maximal(self, keys, prefs, remaining):
+        return [c for c in remaining if not any(self.gt(keys, prefs, d, c) for d in remaining if d != c)]
+
+    def first_choices(self, sibs):
+        keys, prefs = self.keys_prefs(sibs)
+        return sorted(self.maximal(keys, prefs, list(keys))), sorted(keys)
 
     def seqs_for_siblings(self, sibs):
-        """-> list of (attempt list, succeeded) alternatives for walking this sibling set in rank order"""
-        groups = self.ranked_groups(sibs)
-        alts = [([], False)]
-        for g in groups:
-            new = []
-            import itertools
-            perms = list(itertools.permutations(g)) if len(g) <= 4 else None
-            if perms is None:
+        keys, prefs = self.keys_prefs(sibs)
+        results = []
+        budget = [self.cap * 4]
+
+        def rec(remaining, prefix):
+            if len(results) > self.cap or budget[0] <= 0:
                 self.overflow = True
-                perms = [tuple(g)]
-            for prefix, done in alts:
-                if done:
-                    new.append((prefix, True))
-                    continue
-                for perm in perms:
-                    cur = [(list(prefix), False)]
-                    for cand in perm:
-                        nxt = []
-                        for pre2, d2 in cur:
-                            if d2:
-                                nxt.append((pre2, True))
-                                continue
-                            for seq, ok in self.expand(cand):
-                                nxt.append((pre2 + seq, ok))
-                        cur = nxt
-                    new.extend(cur)
-            # dedupe
-            seen, alts = set(), []
-            for a in new:
-                k = (tuple(a[0]), a[1])
-                if k not in seen:
-                    seen.add(k)
-                    alts.append(a)
-            if len(alts) > self.cap:
-                self.overflow = True
-                alts = alts[:self.cap]
-        return alts
+                return
+            budget[0] -= 1
+            if not remaining:
+                results.append((prefix, False))
+                return
+            for c in self.maximal(keys, prefs, remaining):
+                rest = [x for x in remaining if x != c]
+                for seq, ok in self.expand(c):
+                    if ok:
+                        results.append((prefix + seq, True))
+                    else:
+                        rec(rest, prefix + seq)
+
+        rec(sorted(keys), [])
+        seen, out = set(), []
+        for a in results:
+            k = (tuple(a[0]), a[1])
+            if k not in seen:
+                seen.add(k)
+                out.append(a)
+        return out
 
     def expand(self, cand):
+        if cand in self._memo:
+            return self._memo[cand]
         v = self.v
+        r = None
         if self.recursive and not (v.oom_group(cand) or False):
             kids = v.w.children(cand)
             if kids:
-                return self.seqs_for_siblings(kids)
-        pop = v.populated(cand)
-        if pop is False:
-            return [([], False)]
-        ok = self.outcome(cand)
-        return [([cand], ok)]
+                r = self.seqs_for_siblings(kids)
+        if r is None:
+            if v.populated(cand) is False:
+                r = [([], False)]
+            else:
+                r = [([cand], self.outcome(cand))]
+        self._memo[cand] = r
+        return r
 
     def sequences(self, roots):
         return self.seqs_for_siblings(roots)
